@@ -18,6 +18,34 @@ pub trait Source {
   spec fn text(&self) -> Seq<u8>;
   fn source(&self) -> (r: Cow<str>)
     ensures cow_target(&r).spec_bytes() == self.text();
+  fn rope(&self) -> (r: Rope<'_>)
+    ensures r.bytes() == self.text();
+}
+"""
+
+GLUE_ROPE = r"""
+// D6: `Rope` enters as an opaque external type with ASSUMED contracts for the five methods ReplaceSource::rope calls
+// (these are statements of property C16 for new/len/byte_slice/append/add; rope.rs itself is not verified here).
+#[verifier::external_body]
+pub struct Rope<'a> { _p: std::marker::PhantomData<&'a str> }
+impl<'a> Rope<'a> {
+  /// a rope denotes a string: its bytes are the UTF-8 encoding of a char sequence
+  pub uninterp spec fn chars(&self) -> Seq<char>;
+  pub open spec fn bytes(&self) -> Seq<u8> { encode_utf8(self.chars()) }
+  #[verifier::external_body]
+  pub fn new() -> (r: Self) ensures r.bytes() == Seq::<u8>::empty() { unimplemented!() }
+  #[verifier::external_body]
+  pub fn len(&self) -> (n: usize) ensures n == self.bytes().len() { unimplemented!() }
+  /// panics (C16: "get_byte_slice returns None exactly for ranges that are reversed, out of bounds or not on char boundaries")
+  #[verifier::external_body]
+  pub fn byte_slice(&self, range: std::ops::Range<usize>) -> (r: Rope<'a>)
+    requires range.start <= range.end <= self.bytes().len(), is_char_boundary(self.bytes(), range.start as int), is_char_boundary(self.bytes(), range.end as int)
+    ensures r.bytes() == self.bytes().subrange(range.start as int, range.end as int)
+  { unimplemented!() }
+  #[verifier::external_body]
+  pub fn append(&mut self, value: Rope<'a>) ensures final(self).bytes() == old(self).bytes() + value.bytes() { unimplemented!() }
+  #[verifier::external_body]
+  pub fn add(&mut self, value: &'a str) ensures final(self).bytes() == old(self).bytes() + value.spec_bytes() { unimplemented!() }
 }
 """
 
@@ -145,12 +173,66 @@ def g1_guard_continue(it, fn, n):
     return count
 
 
+def build_rope(u, s):
+    """ReplaceSource::rope against the same reference model, over the assumed Rope contracts"""
+    s.rule_opt("D2", r"[ \t]*#\[allow\(clippy::manual_clamp\)\]\n", "")
+    f1_name_for_iter(s, "rope")
+    u.g1_sites_rope = g1_guard_continue(s, "rope", 1)
+    s.sig("rope", [
+        ("rope.requires", "contract", "requires self.dom_ok()"),
+        ("rope.ensures", "contract",
+         "ensures exists|idx: Seq<int>| stable_sorted_idx(self.replacements@, idx)\n"
+         "    && res.bytes() == splice(self.inner.text(), rviews(picks(self.replacements@, idx)), 0)", F),
+    ], ret="res")
+    s.loop("rope", 1, [
+        ("rope.loop1.frame", "contract",
+         "invariant ib == inner_source_code.bytes(), ib == self.inner.text(), self.dom_ok(),\n"
+         "  stable_sorted_idx(self.replacements@, idx), derefs(replacements@) == picks(self.replacements@, idx), rs == rviews(picks(self.replacements@, idx)),\n"
+         "  inner_pos <= ib.len(), pos_ok(ib, inner_pos),"),
+        ("rope.loop1.inv", "contract",
+         "invariant source_code.bytes() + splice(ib, rs.skip(it.index@ as int), inner_pos as int) == splice(ib, rs, 0),", F),
+    ])
+    A = r"let\s+replacements\s*=\s*self\.sorted_replacement\(\);"
+    s.at("rope", "after", A, "rope.hint.idx", "hint", "proof { assert(rs.len() == replacements@.len()); }", regex=True, nth=1)
+    s.at("rope", "after", A, "rope.ghost.idx", "ghost",
+         "let ghost ib = inner_source_code.bytes();\n"
+         "let ghost idx = choose|idx: Seq<int>| stable_sorted_idx(self.replacements@, idx) && derefs(replacements@) == picks(self.replacements@, idx);\n"
+         "let ghost rs = rviews(picks(self.replacements@, idx));", regex=True, optional=False, nth=1)
+    s.at("rope", "before", r"return\s+inner_source_code;", "rope.hint.empty", "hint",
+         "proof { assert(rs =~= Seq::<RS>::empty()); assert(ib.subrange(0, ib.len() as int) =~= ib); }", regex=True, tags=F, nth=1)
+    s.at("rope", "before", r"for\s+replacement\s+in", "rope.hint.init", "hint",
+         "proof {\n"
+         "  assert(rs.skip(0) =~= rs);\n"
+         "  assert(Seq::<u8>::empty() + splice(ib, rs, 0) =~= splice(ib, rs, 0));\n"
+         "}", regex=True, tags=F, nth=1)
+    s.loop_body_start("rope", 1, "rope.hint.iter", "hint",
+                      "proof {\n"
+                      "  assert(*replacement == replacements@[i]);\n"
+                      "  assert(derefs(replacements@)[i] == **replacement);\n"
+                      "  assert(**replacement == self.replacements@[idx[i]]);\n"
+                      "  assert(r == rview(**replacement));\n"
+                      "  assert(rs.skip(i)[0] == r);\n"
+                      "  assert(rs.skip(i).skip(1) =~= rs.skip(i + 1));\n"
+                      "}")
+    s.loop_body_start("rope", 1, "rope.ghost.iter", "ghost",
+                      "let ghost i = it.index@ as int;\n"
+                      "let ghost r = rs[i];\n"
+                      "let ghost b0 = source_code.bytes();\n"
+                      "let ghost pos0 = inner_pos as int;")
+    s.at("rope", "before", r"source_code\.add\(&replacement\.content\);", "rope.hint.mid", "hint",
+         "proof { assert(source_code.bytes() =~= b0 + (if pos0 < r.start { ib.subrange(pos0, min2(r.start as int, ib.len() as int)) } else { Seq::<u8>::empty() })); }",
+         regex=True, tags=F, nth=1)
+    s.body_start("rope", "canary.rope", "canary", "proof { assert(false); }")
+    s.loop_body_start("rope", 1, "canary.rope.loop1", "canary", "proof { assert(false); }")
+
+
 def build(u):
     for x in ["use vstd::utf8::*;", "use vstd::string::StringSliceAdditionalSpecFns;", "use vstd::slice::SliceIndexSpec;",
               "use std::borrow::Cow;", "use std::sync::{Arc, Mutex, atomic::AtomicBool};", "use std::ops::Index;", "use std::slice::SliceIndex;"]:
         u.use(x)
     u.raw("broadcast use {vstd::string::group_string_axioms, vstd::utf8::group_utf8_lib};", ("glue", NAME))
     u.spec("splice_spec.rs")
+    u.raw(GLUE_ROPE, ("glue", NAME))
     u.raw(GLUE_TRAIT, ("glue", NAME))
     e = u.item("src/replace_source.rs", "pub enum ReplacementEnforce {")
     e.rule("D2", r"[ \t]*#\[default\]\n", "")
@@ -159,11 +241,22 @@ def build(u):
     u.raw(GLUE_SPEC, ("glue", NAME))
     u.raw("impl<T: Source> ReplaceSource<T> {", ("glue", NAME))
     s = u.method("src/replace_source.rs", "impl<T: Source + Hash + PartialEq + Eq + 'static> Source for ReplaceSource<T>", "source")
+    rp = u.method("src/replace_source.rs", "impl<T: Source + Hash + PartialEq + Eq + 'static> Source for ReplaceSource<T>", "rope")
+    sz = u.method("src/replace_source.rs", "impl<T: Source + Hash + PartialEq + Eq + 'static> Source for ReplaceSource<T>", "size")
     u.raw("}", ("glue", NAME))
+    build_rope(u, rp)
+    sz.sig("size", [
+        ("size.requires", "contract", "requires self.dom_ok()"),
+        ("size.ensures", "contract",
+         "ensures exists|idx: Seq<int>| #![trigger stable_sorted_idx(self.replacements@, idx)] stable_sorted_idx(self.replacements@, idx)\n"
+         "    && (splice(self.inner.text(), rviews(picks(self.replacements@, idx)), 0).len() <= usize::MAX ==> r == splice(self.inner.text(), rviews(picks(self.replacements@, idx)), 0).len())", F),
+    ], ret="r")
+    sz.body_start("size", "canary.size", "canary", "proof { assert(false); }")
+    u.contracted += [("ReplaceSource::rope", "src/replace_source.rs"), ("ReplaceSource::size", "src/replace_source.rs")]
     # D3: capacity hint (allocation only)
     s.rule("D3", r"let max_len = replacements\s*\.iter\(\)\s*\.map\(\|replacement\| replacement\.content\.len\(\)\)\s*\.sum::<usize>\(\)\s*\+ inner_source_code\.len\(\);\n", "")
     s.rule("D3", r"String::with_capacity\(max_len\)", "String::new()")
-    s.rule("D2", r"[ \t]*#\[allow\(clippy::manual_clamp\)\]\n", "")
+    s.rule_opt("D2", r"[ \t]*#\[allow\(clippy::manual_clamp\)\]\n", "")
     f1_name_for_iter(s, "source")
     u.g1_sites = g1_guard_continue(s, "source", 1)
     u.l1_sites = l1_let_bind(s, "source")
